@@ -95,8 +95,16 @@ def gen_history(rng, length, nslots=2):
             emit(s, 'get_z0', [idx(rng, v.ports)])
         elif r < 0.73:
             emit(s, 'set_all_z0', [cval(rng)])
-        elif r < 0.75:
+        elif r < 0.74:
             emit(s, 'set_z0_vector', [cval(rng) for _ in range(v.ports)])
+        elif r < 0.75:
+            # a setter given the object's own vector (vnadata_get_fz0_vector / vnadata_get_z0_vector), also across a mode switch
+            if v.freqs > 0 and rng.random() < 0.5:
+                emit(s, 'set_z0_vector_own', [rng.randrange(v.freqs)])
+            elif v.freqs > 0:
+                emit(s, 'set_fz0_vector_own', [idx(rng, v.freqs), (-1 if not v.perF and rng.random() < 0.6 else rng.randrange(v.freqs))])
+            else:
+                emit(s, 'get_z0_vector', [])
         elif r < 0.77:
             emit(s, 'get_z0_vector', [])
         elif r < 0.83:
